@@ -4,7 +4,11 @@
 // deterministic while every loop still lives on its own thread.  Signals are delivered with a real raise()
 // on the main thread, one at a time; user handlers are sentinel functions that count their invocations.
 // After every op the harness prints isEnabled() of every event and sigaction(sig, nullptr, &cur) of the
-// four signals field-wise (handler, SA_SIGINFO, other flags, mask).  Format = lean/Driver/C04.lean.
+// six signals field-wise (handler, SA_SIGINFO, other flags, mask).  Signal ids ascend with the signal numbers:
+// 0 SIGKILL, 1 SIGUSR1, 2 SIGUSR2, 3 SIGSTOP, 4 SIGRTMIN+1, 5 SIGRTMIN+2 (0 and 3: sigaction fails, never raised).
+// Callbacks run scripts (enable/disable/delete of events of the same loop).  A pass line starts with the order
+// in which std::set<SignalSubscribuer*> iterates the events alive at the start of the pass (`ord=`): the model
+// takes it as its oracle (trace mode).  Format = lean/Driver/C04.lean.
 #include "vh.h"
 #include <signal.h>
 #include <string.h>
@@ -17,11 +21,13 @@
 #include <tbox/base/log_output.h>
 #include <tbox/event/loop.h>
 #include <tbox/event/signal_event.h>
+#include <tbox/event/signal_event_impl.h>
 
 using namespace tbox::event;
 
-static const int kNSig = 4, kNLoop = 3, kNH = 3;
+static const int kNSig = 6, kNLoop = 3, kNH = 3;
 static int kSig[kNSig];
+static const int kMaskId[4] = {1, 2, 4, 5};   // sa_mask bit b <-> signal id kMaskId[b] (SIGKILL/SIGSTOP cannot be masked)
 static int sig_index(int signo) { for (int i = 0; i < kNSig; ++i) if (kSig[i] == signo) return i; return 99; }
 
 // ---- sentinel handlers (async-signal-safe: they only store into a preallocated array)
@@ -65,8 +71,10 @@ static Loop *loops[kNLoop] = {nullptr, nullptr, nullptr};
 static std::string engine = "epoll";
 
 struct CbRec { size_t ev; int sig; bool en; };
+struct Act { char kind; size_t j; };
 static std::vector<SignalEvent *> objs;
 static std::vector<int> obj_loop;
+static std::vector<std::vector<Act>> scripts;
 static std::vector<CbRec> cbs;
 static bool thr_bad = false;
 
@@ -87,7 +95,10 @@ static std::string disp_of(int g) {
     if (f) { char b[32]; snprintf(b, sizeof b, "+%lx", f); fs += b; }
     unsigned mask = 0; bool other = false;
     for (int sgn = 1; sgn < 65; ++sgn) {
-        if (sigismember(&cur.sa_mask, sgn) == 1) { int i = sig_index(sgn); if (i < kNSig) mask |= 1u << i; else other = true; }
+        if (sigismember(&cur.sa_mask, sgn) != 1) continue;
+        bool known = false;
+        for (int b = 0; b < 4; ++b) if (kSig[kMaskId[b]] == sgn) { mask |= 1u << b; known = true; }
+        if (!known) other = true;
     }
     return k + ":" + (si ? "1" : "0") + ":" + fs + ":" + std::to_string(mask) + (other ? "+" : "");
 }
@@ -106,11 +117,11 @@ static void make_loops() { for (int l = 0; l < kNLoop; ++l) loops[l] = Loop::New
 static void reset_all() {
     for (size_t e = 0; e < objs.size(); ++e)
         if (objs[e]) { SignalEvent *o = objs[e]; workers[obj_loop[e]].run([o] { delete o; }); objs[e] = nullptr; }
-    objs.clear(); obj_loop.clear(); cbs.clear(); thr_bad = false;
+    objs.clear(); obj_loop.clear(); scripts.clear(); cbs.clear(); thr_bad = false;
     for (int l = 0; l < kNLoop; ++l) { delete loops[l]; loops[l] = nullptr; }
     for (int g = 0; g < kNSig; ++g) {
         struct sigaction sa; memset(&sa, 0, sizeof(sa)); sa.sa_handler = SIG_DFL; sigemptyset(&sa.sa_mask);
-        sigaction(kSig[g], &sa, nullptr);
+        sigaction(kSig[g], &sa, nullptr);   // fails for SIGKILL/SIGSTOP, which never change anyway
     }
     g_ncalls = 0;
     engine = "epoll";
@@ -133,30 +144,57 @@ static bool parse_sigs(const std::string &w, std::set<int> &out) {
     return true;
 }
 
-// canonical form of the callbacks of one pass (same rule as the driver's groupCbs)
+// the callbacks of one pass in call order
 static std::string show_cbs() {
     if (cbs.empty()) return "-";
-    std::vector<std::vector<CbRec>> groups;
-    for (auto &c : cbs) {
-        bool fresh = groups.empty() || groups.back().front().sig != c.sig;
-        if (!fresh) for (auto &x : groups.back()) if (x.ev == c.ev) fresh = true;
-        if (fresh) groups.emplace_back();
-        groups.back().push_back(c);
-    }
     std::string s;
-    for (size_t i = 0; i < groups.size(); ++i) {
-        auto &gr = groups[i];
-        std::stable_sort(gr.begin(), gr.end(), [](const CbRec &a, const CbRec &b) { return a.ev < b.ev; });
-        if (i) s += ";";
-        s += std::to_string(gr.front().sig) + ":";
-        for (size_t j = 0; j < gr.size(); ++j) { if (j) s += ","; s += "e" + std::to_string(gr[j].ev) + (gr[j].en ? "+" : "-"); }
+    for (size_t i = 0; i < cbs.size(); ++i) {
+        if (i) s += ",";
+        s += std::to_string(cbs[i].sig) + ":e" + std::to_string(cbs[i].ev) + (cbs[i].en ? "+" : "-");
     }
     return s;
 }
 
+// "e1" "d0" "x2"
+static bool parse_script(const std::string &w, std::vector<Act> &out, size_t self) {
+    out.clear();
+    if (w == "-") return true;
+    if (w.empty() || w.back() == ',') return false;
+    std::stringstream ss(w); std::string item;
+    while (std::getline(ss, item, ',')) {
+        if (item.size() < 2 || (item[0] != 'e' && item[0] != 'd' && item[0] != 'x')) return false;
+        uint64_t j; if (!vh::to_u64(item.substr(1), j) || j >= 64) return false;
+        if (item[0] == 'x' && j == self) return false;   // deleting oneself inside one's own callback is outside the property
+        out.push_back(Act{item[0], (size_t)j});
+    }
+    return true;
+}
+
+// one script action, executed inside a callback on loop li's thread: only events of that loop
+static void apply(const Act &a, int li) {
+    if (a.j >= objs.size() || objs[a.j] == nullptr || obj_loop[a.j] != li) return;
+    SignalEvent *t = objs[a.j];
+    switch (a.kind) {
+        case 'e': t->enable(); break;
+        case 'd': t->disable(); break;
+        case 'x': delete t; objs[a.j] = nullptr; break;
+    }
+}
+
+// iteration order of std::set<SignalSubscribuer*> over the events that are alive now
+static std::string show_ord() {
+    std::vector<std::pair<uintptr_t, size_t>> v;
+    for (size_t e = 0; e < objs.size(); ++e)
+        if (objs[e]) v.push_back({(uintptr_t) static_cast<SignalSubscribuer *>(static_cast<SignalEventImpl *>(objs[e])), e});
+    std::sort(v.begin(), v.end());
+    std::string s;
+    for (auto &p : v) { if (!s.empty()) s += ","; s += "e" + std::to_string(p.second); }
+    return s.empty() ? "-" : s;
+}
+
 int main() {
     LogOutput_Disable();
-    kSig[0] = SIGUSR1; kSig[1] = SIGUSR2; kSig[2] = SIGRTMIN + 1; kSig[3] = SIGRTMIN + 2;
+    kSig[0] = SIGKILL; kSig[1] = SIGUSR1; kSig[2] = SIGUSR2; kSig[3] = SIGSTOP; kSig[4] = SIGRTMIN + 1; kSig[5] = SIGRTMIN + 2;
     for (auto &w : workers) w.start();
     make_loops();
     reset_all();
@@ -173,22 +211,25 @@ int main() {
                 make_loops();
             }
             std::cout << "P eng\n";
-        } else if (w[0] == "new" && w.size() == 2 && idx(w[1], kNLoop, l)) {
+        } else if (w[0] == "new" && w.size() == 3 && idx(w[1], kNLoop, l)) {
             size_t id = objs.size();
+            std::vector<Act> sc;
+            if (!parse_script(w[2], sc, id)) { std::cout << "bad-op\n"; continue; }
             SignalEvent *ev = nullptr;
             workers[l].run([&] { ev = loops[l]->newSignalEvent("verif"); });
-            objs.push_back(ev); obj_loop.push_back((int)l);
+            objs.push_back(ev); obj_loop.push_back((int)l); scripts.push_back(sc);
             int li = (int)l;
             ev->setCallback([id, li](int signo) {
                 if (std::this_thread::get_id() != workers[li].tid) thr_bad = true;
                 cbs.push_back(CbRec{id, sig_index(signo), objs[id] != nullptr && objs[id]->isEnabled()});
+                std::vector<Act> sc = scripts[id];
+                for (auto &a : sc) apply(a, li);
             });
             std::cout << "P ret=1 " << show() << "\n";
         } else if (w[0] == "init" && w.size() == 4 && idx(w[1], objs.size(), e)) {
             std::set<int> ss;
             if (!parse_sigs(w[2], ss) || (w[3] != "o" && w[3] != "p")) { std::cout << "bad-op\n"; continue; }
             SignalEvent *o = objs[e];
-            if (o != nullptr && o->isEnabled()) { std::cout << "P refused " << show() << "\n"; continue; }
             bool r = false;
             if (o) workers[obj_loop[e]].run([&] { r = o->initialize(ss, w[3] == "o" ? Event::Mode::kOneshot : Event::Mode::kPersist); });
             std::cout << "P ret=" << (r ? 1 : 0) << " " << show() << "\n";
@@ -215,8 +256,8 @@ int main() {
             if (!ok) { std::cout << "bad-op\n"; continue; }
             if (f & 1) sa.sa_flags |= SA_RESTART;
             if (f & 2) sa.sa_flags |= SA_NODEFER;
-            for (int i = 0; i < kNSig; ++i) if (m & (1u << i)) sigaddset(&sa.sa_mask, kSig[i]);
-            // the user does not replace the library's handler while it is installed
+            for (int b = 0; b < 4; ++b) if (m & (1u << b)) sigaddset(&sa.sa_mask, kSig[kMaskId[b]]);
+            // the user does not replace the library's handler while it is installed (SIGKILL/SIGSTOP: EINVAL)
             bool r = disp_of((int)g)[0] != 'T';
             if (r) r = sigaction(kSig[g], &sa, nullptr) == 0;
             std::cout << "P ret=" << (r ? 1 : 0) << " " << show() << "\n";
@@ -233,11 +274,12 @@ int main() {
             std::cout << "P raise " << outcome << " calls=" << calls << " " << show() << "\n";
         } else if (w[0] == "pass" && w.size() == 2 && idx(w[1], kNLoop, l)) {
             cbs.clear(); thr_bad = false;
+            std::string ord = show_ord();
             workers[l].run([&] {
                 loops[l]->runNext([] {}, "verif-nowait");     // keeps getWaitTime()==0: the pass never sleeps
                 loops[l]->runLoop(Loop::Mode::kOnce);
             });
-            std::cout << "P pass cbs=" << show_cbs() << " thr=" << (thr_bad ? "BAD" : "ok") << " " << show() << "\n";
+            std::cout << "P pass ord=" << ord << " cbs=" << show_cbs() << " thr=" << (thr_bad ? "BAD" : "ok") << " " << show() << "\n";
         } else {
             std::cout << "bad-op\n";
         }
